@@ -740,6 +740,38 @@ def vc_blade2canon(H):
             H.run_paths(fuc, f'len={n},{variant}', body)
 
 
+def vc_blade2canon_concrete(H, d=4):
+    """Bounded (all spellings of all blades of the default-basis algebra with d generators, d=4: 64 spellings): the real
+    _blade2canon with the real _swap_blades inlined must return the canonical name and a swap count with the parity of the
+    spelling."""
+    import itertools
+    import operator
+    import functools
+    fuc = H.fn(REL, 'Algebra._blade2canon')
+    names = {K: 'e' + ''.join(format(i + 1, 'x') for i in range(d) if K >> i & 1) for K in range(2 ** d)}
+    canon2bin = {n: K for K, n in names.items()}
+
+    def body(ctx):
+        me = sym('self', attrs={'canon2bin': canon2bin, 'bin2canon': names, 'd': d})
+        interp = Interp(ctx, source_name=REL)
+        clo = H.closure(interp, fuc, {'reduce': functools.reduce, 'operator': operator})
+        bad = []
+        n = 0
+        for K, nm in names.items():
+            for perm in itertools.permutations(nm[1:]):
+                sp = 'e' + ''.join(perm)
+                inv = sum(1 for i in range(len(perm)) for j in range(i + 1, len(perm)) if perm[i] > perm[j])
+                r = clo(me, sp)
+                n += 1
+                if not (isinstance(r, tuple) and r[0] == nm and isinstance(r[1], int) and r[1] % 2 == inv % 2):
+                    bad.append((sp, repr(r)))
+        ctx.oblige(f'_blade2canon on all {n} spellings (d={d}): canonical name and swap parity == permutation parity', not bad,
+                   meta={'wrong': bad[:5]})
+        r = clo(me, 'e9')
+        ctx.oblige('_blade2canon: a generator outside the algebra gives the out-of-space marker', r == (f'e{2 ** d}', 0))
+    H.run_paths(fuc, f'all-spellings-d={d}', body)
+
+
 def vc_bladedict_getitem(H):
     """blades[spelling] == (-1)^swaps * blades[canonical name]  (C01: named blade = ordered product; C15 accessors)."""
     fuc = H.fn(REL, 'BladeDict.__getitem__')
